@@ -130,6 +130,22 @@ impl<B> BlockCursor<B> {
     }
 }
 
+#[cfg(grenad_verif)]
+impl<B: Borrow<Block>> BlockCursor<B> {
+    pub(crate) fn verif_fingerprint(
+        &self,
+        recorded_offset: Option<u64>,
+    ) -> crate::verif::BlockFingerprint {
+        let buffer = &self.block.borrow().buffer;
+        crate::verif::BlockFingerprint {
+            recorded_offset,
+            current_offset: self.current_offset,
+            buffer_hash: crate::verif::fnv1a(buffer),
+            buffer_len: buffer.len(),
+        }
+    }
+}
+
 impl<B: Borrow<Block>> BlockCursor<B> {
     /// Returns the currently pointed key/value or `None` if the cursor hasn't been seeked yet.
     pub fn current(&self) -> Option<(&[u8], &[u8])> {
